@@ -155,7 +155,7 @@ class Paraxial:
             return ap_value
 
         elif ap_type == 'imageFNO':
-            return self.f2() / ap_value
+            return np.abs(self.f2()) / ap_value
 
         elif ap_type == 'objectNA':
             obj_z = self.optic.object_surface.geometry.cs.z
@@ -214,7 +214,7 @@ class Paraxial:
         if ap_type == 'imageFNO':
             return self.optic.aperture.value
         else:
-            return self.f2() / self.EPD()
+            return np.abs(self.f2()) / self.EPD()
 
     def magnification(self):
         '''Calculate the magnification
